@@ -506,6 +506,8 @@ def universal_layout(rnd, W=None, tag="universal random struct"):
                 f.zero_pad = True
             if len(ranges) > 1 and rnd.random() < 0.12:
                 f.list_trailing_comma = True
+            if rnd.random() < 0.1 and not f.attr_split:
+                f.args_trailing_comma = True
             if len(ranges) > 1 and rnd.random() < 0.1 and not f.attr_split:
                 f.list_split = rnd.randint(1, len(ranges) - 1)
             if rnd.random() < 0.06:
